@@ -99,3 +99,22 @@ package interp
 //@   ensures only-receiverless-init-functions-are-collected: len(initNodes) != old(len(initNodes)) ==> n.child[1].ident == "init" && len(n.child[0].child) == 0
 //@   ensures init-function-is-appended-last: n.child[1].ident == "init" && len(n.child[0].child) == 0 ==> len(initNodes) == old(len(initNodes)) + 1 && initNodes[len(initNodes)-1] == n && forall(k, 0, old(len(initNodes)), initNodes[k] == old(initNodes[k]))
 //@   canary len(initNodes) == old(len(initNodes))
+
+// pkgDir (C16): for the current root the package is looked for in <root>/vendor first, then at the
+// effective path below GOPATH/src; with an empty root that is the end of the search (an error); otherwise
+// the search continues from the previous root.  Everything is asked of the supplied file system.
+//@ trusted func effectivePkg(root, path) (r)
+//@   pure
+//@ func (interp *Interpreter) pkgDir(goPath, root, importPath) (dir, rPath, err)
+//@   props C16
+//@   opt safety = off
+//@   opt opaque-calls = previousRoot, pkgDir
+//@   opt ignore-contracts = previousRoot
+//@   opt opaque-havoc = none
+//@   requires [assume] interp != nil
+//@   let vdir: pathJoin2(pathJoin2(pathJoin2(goPath, "src"), pathJoin2(root, "vendor")), importPath)
+//@   let edir: pathJoin2(pathJoin2(goPath, "src"), effectivePkg(root, importPath))
+//@   ensures vendor-of-the-root-first: existsAt(interp.opt.filesystem, vdir) ==> err == nil && dir == vdir && rPath == pathJoin2(root, "vendor")
+//@   ensures then-the-effective-path: !existsAt(interp.opt.filesystem, vdir) && existsAt(interp.opt.filesystem, edir) ==> err == nil && dir == edir && rPath == root
+//@   ensures nothing-found-at-the-top-is-an-error: !existsAt(interp.opt.filesystem, vdir) && !existsAt(interp.opt.filesystem, edir) && root == "" ==> err != nil
+//@   canary err == nil ==> rPath == root
